@@ -97,6 +97,12 @@ Fixpoint w_observes (ops : list wop) (tr : list (wres * wst)) : list wobs :=
 Definition src0 (data : bytes) (caps : list nat) : src :=
   {| s_data := data; s_caps := caps; s_pos := 0; s_reach := 0; s_unb := 0 |}.
 
+(* the state a history ends in, and everything it took from the stream, in call order *)
+Fixpoint wend (tr : list (wres * wst)) (st0 : wst) : wst :=
+  match tr with [] => st0 | (_, st) :: tl => wend tl st end.
+Definition wbytes (tr : list (wres * wst)) : bytes :=
+  concat (map (fun p => res_bytes (fst p)) tr).
+
 (* ------------------------------------------------------------------ ASGI *)
 
 (* the body the server sends: chunks up to the first event without more_body (or a
@@ -234,3 +240,8 @@ Fixpoint a_observes (ops : list aop) (tr : list (ares * ast)) : list aobs :=
   | op :: ops', p :: tr' => a_observe op p :: a_observes ops' tr'
   | _, _ => []
   end.
+
+Fixpoint aend (tr : list (ares * ast)) (st0 : ast) : ast :=
+  match tr with [] => st0 | (_, st) :: tl => aend tl st end.
+Definition abytes (tr : list (ares * ast)) : bytes :=
+  concat (map (fun p => ares_bytes (fst p)) tr).
